@@ -123,15 +123,17 @@ type writeCall struct {
 }
 
 type muxCfg struct {
-	variant    gohlslib.MuxerVariant
-	vname      string
-	tracks     []*trackSpec
-	segCount   int
-	segMin     time.Duration
-	partMin    time.Duration
-	segMaxSize uint64
-	disk       bool
-	dir        string
+	variant gohlslib.MuxerVariant
+	// Low-Latency selected by leaving Muxer.Variant at its zero value
+	defaultVariant bool
+	vname          string
+	tracks         []*trackSpec
+	segCount       int
+	segMin         time.Duration
+	partMin        time.Duration
+	segMaxSize     uint64
+	disk           bool
+	dir            string
 }
 
 func (c *muxCfg) leadingTrack() *trackSpec {
@@ -194,6 +196,7 @@ func genMuxCfg(r *Run, g *muxGen) *muxCfg {
 		c.variant = gohlslib.MuxerVariantFMP4
 	default:
 		c.variant = gohlslib.MuxerVariantLowLatency
+		c.defaultVariant = T.Chance(1, 4)
 	}
 	// tracks
 	hasVideo := g.forceVideo || T.Chance(3, 4)
@@ -706,6 +709,10 @@ func genAACCalls(T *Tape, g *muxGen, c *muxCfg, ts *trackSpec, n int, t0 float64
 			}
 			u := &unit{track: ts.id, idx: len(ts.units), dts: pts + int64(j)*1024, pts: pts + int64(j)*1024, ra: true}
 			au := taggedPayload(ts.id, u.idx, size)
+			if T.Chance(1, 40) {
+				// raw access units are opaque bytes: some begin like an ADTS header (12-bit syncword)
+				au = append([]byte{0xff, byte(0xf0 | T.Intn(16))}, au...)
+			}
 			u.data = [][]byte{au}
 			u.payload = au
 			ts.units = append(ts.units, u)
@@ -811,8 +818,13 @@ func newMuxWorld(r *Run, c *muxCfg, script []*writeCall) (*muxWorld, error) {
 		tracks = append(tracks, ts.t)
 	}
 	w.m = &gohlslib.Muxer{
-		Tracks:             tracks,
-		Variant:            c.variant,
+		Tracks: tracks,
+		Variant: func() gohlslib.MuxerVariant {
+			if c.variant == gohlslib.MuxerVariantLowLatency && c.defaultVariant {
+				return 0 // left unset: the documented default is Low-Latency
+			}
+			return c.variant
+		}(),
 		SegmentCount:       c.segCount,
 		SegmentMinDuration: c.segMin,
 		PartMinDuration:    c.partMin,
